@@ -1076,8 +1076,13 @@ theorem dotStep_other (s : Str) (h : ∀ t, s ≠ 46 :: t) : dotStep s = ([], s)
 
 theorem countStr_other (s : Str) (h : ∀ t, s ≠ 45 :: t) : countStr s = cs2 s := by
   unfold countStr
-  rw [countStr.match_1.eq_2 _ _ _ _ (fun t ht => h t ht)]
-  rfl
+  split
+  next m s1 heq =>
+    split at heq
+    · next t => exact absurd rfl (h t)
+    · simp only [Prod.mk.injEq] at heq
+      obtain ⟨rfl, rfl⟩ := heq
+      rfl
 
 theorem spanP_head_false (p : Nat → Bool) (f : Str) (hf : ∀ c r, f = c :: r → p c = false) :
     (spanP p f).1 = [] := by
